@@ -4,6 +4,7 @@ package dump
 
 import (
 	"fmt"
+	"reflect"
 	"sort"
 	"strings"
 
@@ -59,6 +60,22 @@ func entry(b *strings.Builder, e *yang.Entry, ind string, pos bool) {
 		src = " src=" + yang.Source(e.Node)
 	}
 	fmt.Fprintf(b, "%s%s kind=%v key=%q cfg=%v ro=%v mand=%v def=%q defvals=%q units=%q ns=%q im=%s%s pfx=%s desc=%q%s exts=%d augmented=%d augments=%d%s\n", ind, e.Name, e.Kind, e.Key, e.Config, e.ReadOnly(), e.Mandatory, e.Default, e.DefaultValues(), e.Units, e.Namespace().Name, im, ime, pfx, e.Description, la, len(e.Exts), len(e.Augmented), len(e.Augments), src)
+	// the extra keywords kept on the entry (if-feature, must, when, status, reference, ...)
+	var xs []string
+	for k := range e.Extra {
+		xs = append(xs, k)
+	}
+	sort.Strings(xs)
+	for _, k := range xs {
+		if len(e.Extra[k]) == 0 {
+			continue
+		}
+		fmt.Fprintf(b, "%s  +%s", ind, k)
+		for _, v := range e.Extra[k] {
+			fmt.Fprintf(b, " %s", extra(v))
+		}
+		b.WriteString("\n")
+	}
 	if e.Type != nil || e.Kind == yang.LeafEntry {
 		typ(b, e.Type, ind+"  :", 0)
 	}
@@ -84,6 +101,15 @@ func entry(b *strings.Builder, e *yang.Entry, ind string, pos bool) {
 		}
 		entry(b, e.Dir[k], ind+"  ", pos)
 	}
+}
+
+// extra renders one element of Entry.Extra (they hold AST nodes; what matters is which
+// statement each one is).
+func extra(v interface{}) string {
+	if n, ok := v.(yang.Node); ok && n != nil && !reflect.ValueOf(n).IsNil() {
+		return fmt.Sprintf("%s:%q@%s", n.Kind(), n.NName(), yang.Source(n))
+	}
+	return fmt.Sprintf("%T", v)
 }
 
 // Set dumps a processed module set.
